@@ -4371,7 +4371,11 @@ func (r *RoutingPolicy) AddDefinedSet(s DefinedSet, replace bool) error {
 	if m, ok := r.definedSetMap[s.Type()]; !ok {
 		return fmt.Errorf("invalid defined-set type: %d", s.Type())
 	} else {
-		if d, ok := m[s.Name()]; ok && !replace {
+		if d, ok := m[s.Name()]; ok {
+			// statements keep the set object they were resolved to: change it in place
+			if replace {
+				return d.Replace(s)
+			}
 			if err := d.Append(s); err != nil {
 				return err
 			}
